@@ -445,6 +445,8 @@ def run_case(case):
                     cfg = cfg0 or {"njob": rng.choice([1, 2, 3, 4]), "resources": "cpu:2,gpu:2"}
                     if rng.random() < 0.3:
                         cfg = {**cfg, "keep_going": True}
+                    if rng.random() < 0.3:
+                        cfg = {**cfg, "thread_delay": {"p": rng.choice([0.3, 1.0]), "max": 0.02, "seed": rng.randrange(1 << 30)}}
                     mode = rng.choice(["jitter", "serial", "serial", "free"])
                     if case.get("scenario") == "forced_overlap":
                         mode = "free"
